@@ -676,6 +676,20 @@ def prep_dataflow(ctx):
             return any(x.op == "phi" and x.args[0] is c and any(
                 attr_pred(y) and any(z is M for z in subterms(y)) for y in subterms(x.args[1])) for x in subterms(t))
 
+        # the active-space object works in the basis the integrals are written in: its mo_coeff is set to the
+        # basis_coeff of the call before the effective one-body term is taken from it (CASSCF otherwise keeps the
+        # mean-field orbitals, and hcore / enuc come out in another basis than chol and the trial)
+        sets = [(i_, e_) for i_, e_ in enumerate(ev.events) if e_.kind == "setattr" and e_.data[1] == "mo_coeff"
+                and strip_wrappers(e_.data[0]) is M]
+        call_at = [i_ for i_, e_ in enumerate(ev.events) if e_.kind == "call" and e_.data is eff[0]]
+        ok_basis = bool(sets) and bool(call_at) and any(
+            i_ < call_at[0] and any(y.op == "sym" and y.args[0] == "basis_coeff" for y in subterms(e_.data[2]))
+            for i_, e_ in sets)
+        ctx.ob("KEYS-2", "prep_afqmc: with a frozen core, the active-space object is given the AFQMC basis (basis_coeff) "
+               "before get_h1eff", ok_basis,
+               "mc.mo_coeff = basis_coeff precedes get_h1eff" if ok_basis else
+               ("the object get_h1eff is called on never has its mo_coeff set to basis_coeff" if not sets else
+                "mo_coeff is set after get_h1eff or not from basis_coeff"), pa)
         for label, t, pred in (
                 ("nelec", nel, lambda y: y.op == "attr" and y.args[1] == "nelecas"),
                 ("enuc", enuc, lambda y: y.op == "call" and y.args[0].op == "attr" and y.args[0].args[1] == "get_h1eff"),
